@@ -3,7 +3,7 @@
 use std::sync::atomic::{AtomicU32, AtomicU64, Ordering::Relaxed};
 
 #[cfg(not(miri))]
-pub const MAX_TAGS: usize = 1 << 16;
+pub const MAX_TAGS: usize = 1 << 18;
 /// Miri tracks every cell of a static individually: keep the tables small there.
 #[cfg(miri)]
 pub const MAX_TAGS: usize = 1 << 11;
@@ -32,7 +32,7 @@ static NEXT_BASE: AtomicU32 = AtomicU32::new(1);
 /// driver instances are alive at any time, so a live block is never reused.
 pub fn reserve(n: u32) -> u32 {
     let n = if cfg!(miri) { n.min(400) } else { n };
-    assert!((n as usize) < MAX_TAGS / 4);
+    assert!((n as usize) <= MAX_TAGS / 2);
     loop {
         let base = NEXT_BASE.fetch_add(n, Relaxed);
         if (base as usize) + (n as usize) < MAX_TAGS && base != 0 {
